@@ -32,13 +32,31 @@ type c19Ups struct {
 	db        []hostnameHash
 	questions []string
 
+	// par: overlapping lookups.  Every Exchange announces itself, waits until
+	// the harness releases it, and only then reads the question of the request
+	// it was given — what would go on the wire.
+	par *c19Par
+
 	// script of the current check
 	err, upper, nonTXT bool
 	chunk              int
 	junk               []string
 }
 
+type c19Par struct {
+	current int
+	entered chan int
+	release []chan struct{}
+	sent    []string
+}
+
 func (u *c19Ups) Exchange(req *dns.Msg) (resp *dns.Msg, err error) {
+	if p := u.par; p != nil {
+		i := p.current
+		p.entered <- i
+		<-p.release[i]
+		p.sent[i] = req.Question[0].Name
+	}
 	q := req.Question[0].Name
 	u.questions = append(u.questions, q)
 	if u.err {
@@ -159,10 +177,111 @@ func c19Consts() string {
 	return fmt.Sprintf("%d %d %d %s %d", prefixLen, hashSize, hexSize, sub, expirySize)
 }
 
+// c19CheckFields lists the fields of the receiver that the body of Check
+// touches directly (the request message must be built from locals).
+func c19CheckFields() string {
+	fset := token.NewFileSet()
+	file, err := parser.ParseFile(fset, "hashprefix.go", nil, 0)
+	if err != nil {
+		return "?"
+	}
+	seen := map[string]bool{}
+	for _, d := range file.Decls {
+		fd, ok := d.(*ast.FuncDecl)
+		if !ok || fd.Name.Name != "Check" || fd.Recv == nil || len(fd.Recv.List) != 1 || len(fd.Recv.List[0].Names) != 1 {
+			continue
+		}
+		recv := fd.Recv.List[0].Names[0].Name
+		methods := map[string]bool{"findInCache": true, "getQuestion": true, "processAnswer": true, "storeInCache": true}
+		ast.Inspect(fd.Body, func(n ast.Node) bool {
+			sel, isSel := n.(*ast.SelectorExpr)
+			if !isSel {
+				return true
+			}
+			if id, isID := sel.X.(*ast.Ident); isID && id.Name == recv && !methods[sel.Sel.Name] {
+				seen[sel.Sel.Name] = true
+			}
+
+			return true
+		})
+	}
+	var names []string
+	for n := range seen {
+		names = append(names, n)
+	}
+	slices.Sort(names)
+
+	return strings.Join(names, " ")
+}
+
+// c19RunPar runs overlapping Check calls on the block's Checker: the calls
+// are started one after the other, each runs until it is inside the
+// upstream's Exchange (or has answered from the cache); then the exchanges
+// are released in the same order, each lookup running to its end.
+func c19RunPar(f []string) (out []string) {
+	n := vutil.Atoi(f[1])
+	hosts := make([]string, n)
+	i := 2
+	for k := 0; k < n; k++ {
+		hosts[k] = vutil.Unhex(f[i])
+		i += 3
+		i += 1 + 2*vutil.Atoi(f[i])
+	}
+	c19U.err, c19U.upper, c19U.chunk, c19U.nonTXT, c19U.junk = false, false, 0, false, nil
+	p := &c19Par{entered: make(chan int), release: make([]chan struct{}, n), sent: make([]string, n)}
+	c19U.par = p
+	defer func() { c19U.par = nil }()
+
+	type result struct {
+		blocked bool
+		err     error
+	}
+	res := make([]result, n)
+	done := make([]chan struct{}, n)
+	asked := make([]bool, n)
+	for k := 0; k < n; k++ {
+		p.release[k] = make(chan struct{})
+		done[k] = make(chan struct{})
+		p.current = k
+		go func() {
+			defer close(done[k])
+			res[k].blocked, res[k].err = c19C.Check(hosts[k])
+		}()
+		select {
+		case <-p.entered:
+			asked[k] = true
+		case <-done[k]:
+		}
+	}
+	for k := 0; k < n; k++ {
+		if asked[k] {
+			close(p.release[k])
+			<-done[k]
+		}
+	}
+	for k := 0; k < n; k++ {
+		v := vutil.B(res[k].blocked)
+		if res[k].err != nil {
+			v = "err"
+		}
+		a, q := "0", "-"
+		if asked[k] {
+			a, q = "1", vutil.Hex(p.sent[k])
+		}
+		out = append(out, v, a, q)
+	}
+
+	return append(out, c19Dump(c19C, c19BaseSec)...)
+}
+
 func c19Run(f []string) []string {
 	switch f[0] {
 	case "C19.consts":
 		return []string{c19Consts()}
+	case "C19.checkfields":
+		return []string{c19CheckFields()}
+	case "C19.par":
+		return c19RunPar(f)
 	case "C19.reset":
 		ttl, size, suffix := vutil.Atoi(f[1]), vutil.Atoi(f[2]), vutil.Unhex(f[3])
 		n := vutil.Atoi(f[4])
@@ -310,6 +429,7 @@ func c19BuildUniverse() (u *c19Univ) {
 
 func c19Gen(r *rand.Rand, emit vutil.Emit) {
 	emit("C19.consts")
+	emit("C19.checkfields")
 	u := c19BuildUniverse()
 	blocks := vutil.N(500)
 	ttls := []int{0, 1, 500_000_000, 1_000_000_000, 1_500_000_000, 2_000_000_000, 600_000_000_000}
@@ -452,6 +572,28 @@ func c19Gen(r *rand.Rand, emit vutil.Emit) {
 				}
 
 				continue
+			}
+			if size == 0 || size >= 1000 {
+				if r.IntN(100) < 8 {
+					// overlapping lookups of 2-8 names on this Checker
+					k := 2 + r.IntN(7)
+					f = []string{"C19.par", vutil.Itoa(k)}
+					for j := 0; j < k; j++ {
+						h := vutil.Pick(r, hosts)
+						hps, hic := publicsuffix.PublicSuffix(h)
+						hsubs := c19Subs(h)
+						f = append(f, vutil.Hex(h), vutil.Hex(hps), vutil.B(hic), vutil.Itoa(len(hsubs)))
+						for _, s := range hsubs {
+							hh := sha256.Sum256([]byte(s))
+							f = append(f, vutil.Hex(s), hex.EncodeToString(hh[:]))
+							pp := [2]byte{hh[0], hh[1]}
+							liveUntil[pp] = max(liveUntil[pp], now+ttl)
+						}
+					}
+					emit(f...)
+
+					continue
+				}
 			}
 			host := vutil.Pick(r, hosts)
 			if r.IntN(2) == 0 {
